@@ -202,6 +202,7 @@ struct PerType {
 int main(int argc, char** argv) {
     if (int rc = vx::parse_args(argc, argv)) return rc;
 #if VX_PART < 100
+    vx::obit::self_check();
     vx::for_each_int_scalar<vx::PerType>();
     vx::for_each_int_type<vx::PerType>();
 #else
